@@ -826,7 +826,8 @@ Record ecase := {
   e_bytes : list N;               (* <tid>.dat *)
   e_crash1 : bool;                (* the thread died in the SIGSEGV/SIGABRT handler path: open calls included *)
   e_crash2 : bool;                (* ... in the second image *)
-  e_nest : bool }.                (* check nesting (off when the image was replaced by exec) *)
+  e_nest : bool;                  (* check nesting (off when the image was replaced by exec) *)
+  e_free : bool }.                (* no log to compare with (a forked child: it starts with inherited open calls) *)
 Definition expect1 (c : ecase) := filt (e_nt c) (e_maxd c) 0%N None (if e_crash1 c then crash_log (e_log1 c) else e_log1 c).
 Definition expect2 (c : ecase) := filt (e_nt c) (e_maxd c) 0%N None (if e_crash2 c then crash_log (e_log2 c) else e_log2 c).
 (* p = p1 ++ p2, p1 a prefix of the first image's trace, p2 of the second's (complete where a crash
@@ -843,7 +844,7 @@ Definition ok_e2e (c : ecase) : bool :=
       let p := project (e_ftab c) l in
       times_ok 0 l && (negb (e_nest c) || nest_ok [] l)
       && match e_log2 c with
-         | [] => split_ok c p (length p)
+         | [] => e_free c || split_ok c p (length p)
          | _ => existsb (split_ok c p) (seq 0 (S (length p)))
          end
   end.
